@@ -31,7 +31,7 @@ for _e, _w in (("v * 2", 4613937818241073152), ("2 * v", 4613937818241073152), (
     EXPECT.append({"src": _F32 + _e, "field": "result", "want": "f:%d" % _w, "why": "`%s` with v a float32 of 1.5 is carried out in float64" % _e})
 for _e, _w in (("v < 2", "true"), ("1 < v", "true"), ("v > 1", "true"), ("v <= 1", "false"), ("2 >= v", "true")):
     EXPECT.append({"src": _F32 + _e, "field": "result", "want": "b:" + _w, "why": "`%s` with v a float32 of 1.5 is compared in float64" % _e})
-for _k in ("int", "int32", "int64"):
+for _k in ("int", "int32", "int64", "rune", "uint", "uint32", "uint64", "byte"):
     EXPECT.append({"src": "b = make([]%s, 1); b[0] = 2; n = b[0]\n\"ab\" * n" % _k, "field": "result", "want": "s:61626162", "why": "string * n repeats the string n times for a count of kind %s" % _k})
     EXPECT.append({"src": "b = make([]%s, 1); b[0] = 2; n = b[0]\n[n * 3, 3 * n, n + 1, n - 5, n %% 2, n << 2, -n]" % _k, "field": "result", "want": "[i:6,i:6,i:3,i:-3,i:0,i:8,i:-2]",
                    "why": "integer arithmetic on a value of kind %s gives the int64 result" % _k})
